@@ -412,6 +412,19 @@ fn near_misses(key: &str, ident: &str, rng: &mut Rng) -> String {
             s
         },
         {
+            // a letter dropped between two letters that are also swapped ("abc" -> "ca"): one
+            // deletion + one transposition of the letters around it
+            let mut cs: Vec<char> = key.chars().collect();
+            if cs.len() >= 3 {
+                let i = rng.below(cs.len() - 2);
+                let (a, c) = (cs[i], cs[i + 2]);
+                cs[i] = c;
+                cs[i + 1] = a;
+                cs.remove(i + 2);
+            }
+            cs.into_iter().collect()
+        },
+        {
             // two adjacent characters swapped
             let mut cs: Vec<char> = key.chars().collect();
             if cs.len() >= 2 {
